@@ -131,7 +131,7 @@ func chanRole(fs fnSyntax, a access) string {
 		})
 	}
 	if closedAfter {
-		return "before-close(" + tname + "." + ch + ")"
+		return "before-close|" + tname + "." + ch
 	}
 	recvBefore := false
 	ast.Inspect(fd.Body, func(n ast.Node) bool {
@@ -155,7 +155,7 @@ func chanRole(fs fnSyntax, a access) string {
 		return true
 	})
 	if recvBefore {
-		return "after-recv(" + tname + "." + ch + ")"
+		return "after-recv|" + tname + "." + ch
 	}
 	return "unordered"
 }
@@ -217,8 +217,8 @@ func genChanOrder(all []access, syn map[string]fnSyntax) string {
 		return a.role < b.role
 	})
 	var b strings.Builder
-	b.WriteString("\n/-- CHANNEL ORDERING FACTS: every access that holds no mutex, in any function of the module, to a field of a struct\nthat has a channel field: (location, function, is-write, role) with role `before-close(T.ch)` (the creating\nactivation, before it closes the channel), `after-recv(T.ch)` (after a receive from it) or `unordered`. -/\n")
-	b.WriteString("def chanOrdered : List (String × String × Bool × String) := [")
+	b.WriteString("\n/-- CHANNEL ORDERING FACTS: every access that holds no mutex, in any function of the module, to a field of a struct\nthat has a channel field: (location, function, is-write, role, channel) with role `before-close` (the creating activation, before it closes the\nchannel `T.ch`), `after-recv` (after a receive from it) or `unordered`. -/\n")
+	b.WriteString("def chanOrdered : List (String × String × Bool × String × String) := [")
 	for i, r := range rows {
 		if i > 0 {
 			b.WriteString(",")
@@ -227,7 +227,11 @@ func genChanOrder(all []access, syn map[string]fnSyntax) string {
 		if r.write {
 			w = "true"
 		}
-		b.WriteString("\n  (" + q(r.loc) + ", " + q(r.fn) + ", " + w + ", " + q(r.role) + ")")
+		role, ch := r.role, ""
+		if i := strings.Index(role, "|"); i >= 0 {
+			role, ch = role[:i], role[i+1:]
+		}
+		b.WriteString("\n  (" + q(r.loc) + ", " + q(r.fn) + ", " + w + ", " + q(role) + ", " + q(ch) + ")")
 	}
 	b.WriteString("]\n")
 	return b.String()
